@@ -4,7 +4,8 @@
 //! Line: `tx O <op>* => <res>* ; <write>*` where an op is `E<outcome>` (enqueue_call), `S<w><outcome>`
 //! (send_*; `w` = 1 if the transport accepts the write, 0 if it fails), `F<w>` (flush); an outcome is
 //! `ok:<bytes>` (the message and its reference encoding by serde_json) or `ke:<bytes>` (a message whose
-//! serialisation is refused after emitting <bytes>).
+//! serialisation is refused after emitting <bytes>). A chain (`chain_call(..).append(..)….send()`) appears as the
+//! enqueues and the flush it consists of: it shares the write buffer with everything enqueued before it.
 
 use crate::common::*;
 use crate::rx::{E1, M1, P1};
@@ -56,6 +57,9 @@ pub enum Op {
     Enqueue(Msg),
     Send(Msg, bool),
     Flush(bool),
+    /// `chain_call(c1).append(c2)….send()`: the chain API enqueues its calls into the same write buffer and
+    /// flushes once; on the line it is spelt as the enqueues and the flush it consists of
+    Chain(Vec<Msg>, bool),
 }
 
 fn pad_str(n: usize, rng: &mut Rng) -> String {
@@ -150,6 +154,44 @@ pub fn run_case(ops: &[Op]) -> (Vec<String>, Vec<Vec<u8>>) {
                 set_write_ok(&net, *w);
                 res.push(res_tok(block_on(conn.flush())))
             }
+            Op::Chain(ms, w) => {
+                set_write_ok(&net, *w);
+                let calls: Vec<Call<M1>> = ms
+                    .iter()
+                    .map(|m| match m {
+                        Msg::CallA { v, oneway, more } => Call::new(M1::A { v: v.clone() }).set_oneway(*oneway).set_more(*more),
+                        _ => Call::new(M1::B),
+                    })
+                    .collect();
+                let mut toks = vec![];
+                match conn.chain_call::<M1, P1, E1>(&calls[0]) {
+                    Err(e) => toks.push(err_token(&e)),
+                    Ok(chain) => {
+                        toks.push("ok".to_string());
+                        let mut cur = Some(chain);
+                        for c in &calls[1..] {
+                            match cur.take().unwrap().append(c) {
+                                Ok(ch) => {
+                                    cur = Some(ch);
+                                    toks.push("ok".to_string());
+                                }
+                                Err(e) => {
+                                    toks.push(err_token(&e));
+                                    break;
+                                }
+                            }
+                        }
+                        if let Some(chain) = cur {
+                            let sent = block_on(chain.send());
+                            toks.push(match sent {
+                                Ok(_) => "ok".into(),
+                                Err(e) => err_token(&e),
+                            });
+                        }
+                    }
+                }
+                res.extend(toks);
+            }
         }
     }
     let w = net.borrow().writes.clone();
@@ -172,6 +214,12 @@ pub fn line(ops: &[Op], res: &[String], writes: &[Vec<u8>]) -> String {
             Op::Enqueue(m) => s.push_str(&format!(" E{}", oc(m))),
             Op::Send(m, w) => s.push_str(&format!(" S{}{}", *w as u8, oc(m))),
             Op::Flush(w) => s.push_str(&format!(" F{}", *w as u8)),
+            Op::Chain(ms, w) => {
+                for m in ms {
+                    s.push_str(&format!(" E{}", oc(m)));
+                }
+                s.push_str(&format!(" F{}", *w as u8));
+            }
         }
     }
     s.push_str(" =>");
@@ -251,9 +299,18 @@ pub fn generate(tier: &str, seed: u64) -> Vec<Vec<Op>> {
         let len = rng.range(1, 12);
         let mut ops = vec![];
         for _ in 0..len {
-            match rng.below(10) {
+            match rng.below(11) {
                 0..=3 => ops.push(Op::Enqueue(gen_msg(&mut rng, true, 700))),
                 4..=7 => ops.push(Op::Send(gen_msg(&mut rng, false, 700), !rng.chance(1, 25))),
+                8 => {
+                    // a chain of 1..3 calls, possibly with calls already enqueued before it
+                    let k = rng.range(1, 3);
+                    let ms = (0..k).map(|_| loop {
+                        let m = gen_msg(&mut rng, true, 300);
+                        if m.is_call() { break m; }
+                    }).collect();
+                    ops.push(Op::Chain(ms, !rng.chance(1, 25)))
+                }
                 _ => ops.push(Op::Flush(!rng.chance(1, 25))),
             }
         }
